@@ -154,6 +154,15 @@ pub fn replay(v: &Value) -> Result<String, String> {
     }
 }
 
+thread_local! {
+    static EXPENSIVE: std::cell::Cell<bool> = std::cell::Cell::new(false);
+}
+/// called by an evaluation that had to wait seconds for a failing child process: shrinking such a
+/// failure gets a small, fixed number of further evaluations
+pub fn mark_expensive() {
+    EXPENSIVE.with(|e| e.set(true));
+}
+
 /// In-process counterpart of `run_cases`: `total` generated cases in 16 proptest shards under
 /// rayon; the first failure of a shard is shrunk by proptest (keeping the failure key) and
 /// reported.  `eval` must be a pure function of the value.
@@ -171,9 +180,23 @@ where
             let local = std::cell::RefCell::new(Local::default());
             let inconc = std::cell::RefCell::new(Vec::new());
             let first_key: std::cell::RefCell<Option<String>> = std::cell::RefCell::new(None);
+            // evaluations still allowed while shrinking (a fixed amount of work; failures that cost a
+            // child process per evaluation get a small budget, see mark_expensive)
+            let budget = std::cell::Cell::new(u32::MAX);
             let strat = mk();
             let r = pt::run(ctx.sub_seed(name, sh as u64), (total / shards).max(1), &strat, |v, counting| {
-                match eval(v) {
+                if !counting {
+                    if budget.get() == 0 {
+                        return Ok(());
+                    }
+                    budget.set(budget.get() - 1);
+                }
+                EXPENSIVE.with(|e| e.set(false));
+                let o = eval(v);
+                if counting && matches!(o, CaseOutcome::Fail { .. }) {
+                    budget.set(if EXPENSIVE.with(|e| e.get()) { 16 } else { 600 });
+                }
+                match o {
                     CaseOutcome::Pass { nontrivial, classes, digest } => {
                         if counting {
                             let mut l = local.borrow_mut();
